@@ -31,6 +31,14 @@ type Str struct {
 	S   string
 	B   []Int
 	IsB bool
+	P   []strPart // structured form of S: literals and big-integer renderings (see strEq)
+	Org *Str      // for byte-strings produced by an injective hash: the hashed string
+}
+
+// strPart: a literal, or the decimal rendering of a 128-bit integer term (digits only, never contains '_')
+type strPart struct {
+	Lit string
+	Big string
 }
 
 func (s Str) IsC() bool { return s.S == "" && !s.IsB }
@@ -77,6 +85,7 @@ type Array struct{ E []*Cell }
 
 // ByteArr is the backing store of every byte buffer: an SMT array BV64 -> BV8.
 type ByteArr struct {
+	Org     *Str // content = injective hash of this string (whole array)
 	T       string
 	Cap     Int
 	Known   map[uint64]Int // overlay of writes at concrete indices (applied on top of T)
